@@ -73,6 +73,9 @@ def cases(draw, tier):
     case = {"g": g, "cfg": cfg, "ns": ns, "ops": ops}
     if via_rdflib:
         case["via_rdflib"] = True
+    elif size == "small" and draw(st.integers(0, 3)) == 0:
+        # the graph comes from a file; "stale": the same path held ANOTHER graph when an earlier Shaper (same arguments) read it
+        case["via_file"] = draw(st.sampled_from(["plain", "stale", "stale"]))
     if draw(st.booleans()):
         case["same_path"] = True        # every call of the history writes to the same file (a later document replaces an earlier one)
     if draw(st.integers(0, 3)) == 0:
@@ -113,13 +116,18 @@ def spelled_targets(case):
     return out
 
 
-def make_kwargs(case, ns_obj, shared=None):
+def make_kwargs(case, ns_obj, shared=None, graph_path=None):
     """shared: dict of argument objects the caller reuses between Shapers (lists); None = fresh copies"""
     g = case["g"]
     if "big" in g:
         g = big_graph(g["big"])
     triples = triples_from_json(g["triples"])
-    if case.get("via_rdflib"):
+    if graph_path is not None:
+        if not os.path.exists(graph_path):
+            with open(graph_path, "w", encoding="utf-8") as f:
+                f.write(to_nt(triples))
+        kw = dict(graph_file_input=graph_path)
+    elif case.get("via_rdflib"):
         from ..rdfmodel import to_rdflib
         kw = dict(rdflib_graph=to_rdflib(triples))        # a fresh Graph object per Shaper
     else:
@@ -200,6 +208,8 @@ def check(case):
         labels.add("shape-map")
     if case.get("via_rdflib"):
         labels.add("rdflib-graph")
+    if case.get("via_file"):
+        labels.add("graph-file-" + case["via_file"])
     if len(calls) >= 2:
         labels.add("repeated-calls")
     if case.get("same_path") and sum(1 for o in calls if (o[2] if o[0] == "shex" else o[1]) in ("file", "both")) >= 2:
@@ -213,16 +223,34 @@ def check(case):
     shared = {"targets": spelled_targets(case), "ignore": list(case.get("ignore") or [])}
     shared_before = copy.deepcopy(shared)
     with sut.tmpdir() as d:
+        hist_path = os.path.join(d, "graph.nt") if case.get("via_file") else None
+        fresh_n = [0]
+
+        def fresh_path():
+            # the model Shaper reads the same document from a path nobody has read before
+            fresh_n[0] += 1
+            return os.path.join(d, "model_%d.nt" % fresh_n[0]) if case.get("via_file") else None
+
         def history():
-            shaper = sut.Shaper(**make_kwargs(case, ns_shared, shared))
+            if case.get("via_file") == "stale":
+                # an earlier extraction from the same path, when the file still held another graph (every second statement)
+                tr_all = triples_from_json((big_graph(case["g"]["big"]) if "big" in case["g"] else case["g"])["triples"])
+                with open(hist_path, "w", encoding="utf-8") as f:
+                    f.write(to_nt(tr_all[::2]))
+                try:
+                    sut.Shaper(**make_kwargs(case, copy.deepcopy(case["ns"]), None, hist_path)).shex_graph(string_output=True)
+                except Exception:
+                    pass
+                os.remove(hist_path)        # make_kwargs writes the real document
+            shaper = sut.Shaper(**make_kwargs(case, ns_shared, shared, hist_path))
             for i, op in enumerate(ops):
                 if op[0] == "new_shaper":
                     # another Shaper built by the same caller with the same dict object; from now on it is the one observed
-                    other = sut.Shaper(**make_kwargs(case, ns_shared, shared))
+                    other = sut.Shaper(**make_kwargs(case, ns_shared, shared, hist_path))
                     shaper = other
                     continue
                 fmt = op[1] if op[0] == "shex" else "profile"
-                fresh = sut.Shaper(**make_kwargs(case, copy.deepcopy(case["ns"])))
+                fresh = sut.Shaper(**make_kwargs(case, copy.deepcopy(case["ns"]), None, fresh_path()))
                 exp, efile = do_call(fresh, [op[0]] + ([op[1], "string", op[3]] if op[0] == "shex" else ["string"]), d, "m%d" % i)
                 try:
                     got, gfile = do_call(shaper, op, d, "h" if case.get("same_path") else "h%d" % i, case.get("stale"))
